@@ -44,6 +44,12 @@
    single-file calls into one directory.  Single-file mode also with names
    that start with a dot (nothing is "hidden" when the file is named
    explicitly) and with directories containing spaces.
+9. Output directory inside the input directory (FilesNest.tla: proved for
+   a walk finished before the first write, refuted by TLC for a walk that
+   alternates with the writes): directly below the input (absent / empty /
+   holding an old result), below a sub-directory that holds inputs, sorted
+   first, with a failing file; the files present at the start yield one
+   output each and nothing else is written.
 """
 import concurrent.futures
 import itertools
@@ -191,7 +197,7 @@ def worker_main(jobfile, outfile, fsroot):
     with open(outfile, "w", encoding="utf-8") as fh:
         for g in groups:
             fn = {"iso": W.run_iso, "rel": W.run_rel, "blk": W.run_blocked, "sib": W.run_siblings,
-                  "seq": W.run_sequence}.get(g.get("kind"), W.run_group)
+                  "seq": W.run_sequence, "nest": W.run_nested}.get(g.get("kind"), W.run_group)
             res = fn(g, fsroot, common.REPO)
             fh.write(json.dumps(res) + "\n")
 
@@ -201,7 +207,7 @@ def run_groups(groups, nproc=common.NPROC):
     shards = [[] for _ in range(nproc)]
     # balance by number of executions
     loads = [0] * nproc
-    cost = lambda g: (8 * len(g["entries"]) if g.get("kind") == "iso" else 2 * len(g["entries"]) if g.get("kind") in ("rel", "blk", "sib", "seq") else
+    cost = lambda g: (8 * len(g["entries"]) if g.get("kind") == "iso" else 2 * len(g["entries"]) if g.get("kind") in ("rel", "blk", "sib", "seq", "nest") else
                       sum(len(s["entries"]) + 8 * sum(e.startswith("cli") for e in s["entries"]) for s in g["scenarios"]) + 2)
     for g in sorted(groups, key=cost, reverse=True):
         j = loads.index(min(loads))
@@ -285,6 +291,12 @@ def run(pid, tier):
                            "M => R + R theorems on M, <= 3 files, every listing order (6 per tree), environment fixed"))
     model_jobs.append(("FilesIso", "FilesIso.cfg", open(os.path.join(tlc.SPEC, "FilesIso.cfg")).read(),
                        "IsolationVsAbsent holds when a failing file is decoded before any line is handled (N=4 files, any failing position)"))
+    model_jobs.append(("FilesNest", "FilesNest.cfg", open(os.path.join(tlc.SPEC, "FilesNest.cfg")).read(),
+                       "output directory inside the input directory (directly below / below a sub-directory; absent / empty / holding an old result): "
+                       "the files present at the start yield one output each and nothing else is written when the tree is listed before the first write"))
+    nlazy = tlc.run("FilesNest", "FilesNestLazy.cfg", workers=2)
+    if nlazy.invariant_violated != "NothingElseWritten":
+        raise common.MachineryError("FilesNest: the lazily walking machine must refute NothingElseWritten (vacuity guard):\n" + nlazy.out[-1500:])
     lazy = tlc.run("FilesIso", "FilesIsoLazy.cfg", workers=2)
     if lazy.invariant_violated != "IsolationVsAbsent":
         raise common.MachineryError("FilesIso: the lazy-reading machine must refute IsolationVsAbsent (vacuity guard):\n" + lazy.out[-1500:])
@@ -378,6 +390,9 @@ def run(pid, tier):
     sib_shapes = sorted(W.SIB_JOBS) if thorough else ["tmp-root", "tmp-bad", "bak-root", "tilde-sub"]
     hand = [("sib", sh, ["dir", "main"], ft) for sh in sib_shapes for ft in (("PAWN", "P") if thorough else ("PAWN",))]
     hand += [("seq", sh, ["file", "main1", "fafile"], "PAWN") for sh in sorted(W.SEQ_JOBS)]
+    # output directory inside the input directory (FilesNest.tla)
+    nest_shapes = sorted(W.NEST_JOBS)
+    hand += [("nest", sh, ["dir", "main"], ft) for sh in nest_shapes for ft in (("PAWN", "P") if thorough else ("PAWN",))]
     nrel = len(rel_jobs)
     rel_jobs += [{"kind": kd, "gid": len(groups) + len(iso_jobs) + nrel + i, "tree": sh, "shape": sh, "form": "-", "feat": ft, "entries": en}
                  for i, (kd, sh, en, ft) in enumerate(hand)]
@@ -394,7 +409,7 @@ def run(pid, tier):
                  "other_files_after_failing": 0, "other_files_between_failing": 0, "other_files_rewritten": 0}
     rel_execs = 0
     for go in outs:
-        if go.get("kind") in ("rel", "blk", "sib", "seq"):
+        if go.get("kind") in ("rel", "blk", "sib", "seq", "nest"):
             job = rel_by_gid[go["gid"]]
             for res_ in go["results"]:
                 rel_execs += 1
@@ -451,12 +466,13 @@ def run(pid, tier):
             _, job, res_, _ = meta[ti]
             ev = traces[ti][k]
             fam = {"rel": "relative-paths", "blk": "blocked-output-subdirectory", "sib": "sibling-inputs-with-derived-names",
-                   "seq": "repeated-single-file-calls"}[job["kind"]]
+                   "seq": "repeated-single-file-calls", "nest": "output-inside-input"}[job["kind"]]
             key = "clause=%s entry=%s family=%s tree=%s form=%s" % (clause, res_["entry"], fam, job["tree"], job["form"])
             if ev.get("ev") == "file":
                 key += " fault=%s" % ev["fault"]
             tree = (W.REL_TREES[job["tree"]]["files"] if job["kind"] == "rel" else W.BLOCK_TREES[job["tree"]] if job["kind"] == "blk"
-                    else W.SIB_JOBS[job["tree"]] if job["kind"] == "sib" else W.SEQ_JOBS[job["tree"]])
+                    else W.SIB_JOBS[job["tree"]] if job["kind"] == "sib" else W.SEQ_JOBS[job["tree"]] if job["kind"] == "seq"
+                    else (W.NEST_TREE, W.NEST_JOBS[job["tree"]]))
             what = ("%s: entry=%s input=%r output=%r options=%s tree=%s -> %s %s; files that appeared/changed elsewhere: %s; raised=%s reports=%s" %
                     (clause, res_["entry"], res_["info"].get("input_arg", "<sandbox>/in"), res_["info"].get("output_arg", "<sandbox>/out"), job["feat"], tree,
                      ev.get("id", "end-of-run"), {x: ev[x] for x in ("fault", "pre", "out", "ref", "reported", "raised") if x in ev}, res_["info"]["others_changed"],
@@ -506,6 +522,9 @@ def run(pid, tier):
     ck.notes["phase_wall"] = tm
 
     ck.notes["scenarios"] = gen_counts
+    ck.notes["output_inside_input_family"] = {"jobs": {k: list(v) for k, v in W.NEST_JOBS.items()}, "tree": W.NEST_TREE,
+                                              "what": "anonymize_files / main with the output directory inside the input directory; R (FilesNest.tla): the files "
+                                                      "present at the start yield one output each, nothing else is written"}
     ck.notes["derived_name_families"] = {"sibling_input_jobs": sib_shapes, "repeated_call_jobs": sorted(W.SEQ_JOBS),
                                          "what": "inputs X and X.tmp/.bak/~ side by side (pairs kept so that the derived name is listed both before and after its "
                                                  "base; X undecodable in the -bad jobs); 2-3 single-file calls into one directory (incl. dot names, names with spaces); "
@@ -546,7 +565,7 @@ def replay(pid, path):
     case = json.load(open(path))["case"]
     if "rel_job" in case:
         job = dict(case["rel_job"], entries=[case["entry"]])
-        res_ = {"blk": W.run_blocked, "rel": W.run_rel, "sib": W.run_siblings, "seq": W.run_sequence}[job["kind"]](
+        res_ = {"blk": W.run_blocked, "rel": W.run_rel, "sib": W.run_siblings, "seq": W.run_sequence, "nest": W.run_nested}[job["kind"]](
             job, tlc.subdir("fs"), common.REPO)["results"][0]
         rejected, _ = validate_traces("FilesTrace", "FilesTrace.cfg", [res_["events"]])
         for ti, (k, clause) in sorted(rejected.items()):
